@@ -207,3 +207,22 @@ Proof.
   unfold all_events. induction 1 as [|f H IH]; [reflexivity|].
   rewrite <- IH. symmetry. apply events_from_fuel; lia.
 Qed.
+
+(* ---- the tree is a sum of ALL summands, each once, in order (bounded statement) ---- *)
+Fixpoint leaves (t : tm) : list nat :=
+  match t with V i => [i] | P a b => leaves a ++ leaves b end.
+
+Definition leaves_ok (n : nat) : bool :=
+  match seq_sum tm P (sym_vals n) with
+  | Some t => list_eqb Nat.eqb (leaves t) (seq 0 n)
+  | None => false
+  end.
+
+Lemma leaves_ok_upto_128 : forallb leaves_ok (seq 1 128) = true.
+Proof. vm_compute. reflexivity. Qed.
+
+Lemma tree_leaves_bounded n : 1 <= n <= 128 -> leaves_ok n = true.
+Proof.
+  intros H. pose proof leaves_ok_upto_128 as A. rewrite forallb_forall in A. apply A.
+  apply in_seq. lia.
+Qed.
